@@ -81,7 +81,7 @@ def edit(rng, text, kinds_wanted=None):
             ln2 += " " * rng.randint(1, 3)
             tags.add("trailing-space")
         if "comment-eol" in ops and ln2.strip() and not ln2.endswith(" ") and rng.random() < 0.4:
-            ln2 += rng.choice([" # comment", "  # x = 1 | 2", " #", " # \"quoted\" (text) [0]", " # squeeze mode 0,", " # rows 1, 2,  ", " # 7,", " # tuned in C:\\runs\\2021\\", " # \\alpha = 1/2 \\\\", " # ----\\"] + EXOTIC_COMMENTS)
+            ln2 += rng.choice([" # comment", "  # x = 1 | 2", " #", " # \"quoted\" (text) [0]", " # squeeze mode 0,", " # rows 1, 2,  ", " # 7,", " # tuned in C:\\runs\\2021\\", " # \\alpha = 1/2 \\\\", " # ----\\", " # the disk is 3.5\"", " # \"", " # say \"hi", " # 'x' \"y\" `z`"] + EXOTIC_COMMENTS)
             tags.add("comment-eol")
         out.append(ln2)
         # own-line comments / blank lines: outside array bodies (not after an array head or row that is followed by a row)
@@ -196,13 +196,20 @@ def cases(rng, quick, gr):
                 return None
             yield {"tag": "edit:" + "+".join(tags) if len(tags) <= 2 else "edit:multi", "text": variant, "pred": pred,
                    "input": {"check": "layout", "text": base, "variant": variant, "edits": tags}}
-    # single edit kinds at every line of a few bases (thorough: more)
+    # single edit kinds at every line of a few bases (thorough: more); among the bases: string literals that end in a backslash,
+    # that hold a '#', or that hold only a backslash (a string ends at the next double quote, whatever stands before it)
+    BS = chr(92)
+    str_bases = ['name s\nversion 1.0\nstr folder = "C:' + BS + 'data' + BS + '"\nstr note = "a#b"\nOp(folder, note, t="# not a comment", u="x' + BS + '") | 0\nVac | 1\n',
+                 'name s\nversion 1.0\ntarget dev (path="D:' + BS + 'runs' + BS + '", tag="#1")\nOp("' + BS + '", "ends ' + BS + BS + '") | 0\nfor str s in ["a' + BS + '", "#"]\n    Op(s) | 1\n    Vac | 0\n',
+                 'name s\nversion 1.0\nstr a = "' + BS + '"\nstr b = "' + BS + BS + '"\nOp(a, b) | 0\n']
+    single_bases = []
     for i in range(6 if quick else 60):
         g = Gen(rng)
         try:
-            base = g.script()
+            single_bases.append(g.script())
         except Exception:  # noqa: BLE001
             continue
+    for base in single_bases + str_bases * (2 if quick else 10):
         for kind in ["comment-eol", "comment-line", "blank", "spaces", "newline-style", "tab-indent", "final-newline", "trailing-space", "leading-space"]:
             variant, tags = edit(rng, base, [kind])
 
